@@ -68,6 +68,7 @@ func init() {
 	dec, _ := mh.Decode(d1)
 	D1 := dec.Digest
 	big := detBytes("big", 100)
+	huge := detBytes("huge", 200)
 
 	add := func(id string, c cid.Cid, data []byte, dataI string) {
 		p := c.Prefix()
@@ -118,6 +119,8 @@ func init() {
 	add("b16", cid.NewCidV1(cid.Raw, mustSum(x6, mh.SHA2_256, -1)), x6, "x6")          // section body 16384
 	add("b17", cid.NewCidV1(cid.DagCBOR, mustSum(x7, mh.SHA2_256, -1)), x7, "x7")      // other codec on b4's multihash
 	add("b18", cid.NewCidV1(cid.Raw, d1), x7, "x7")                                    // b1's CID with other data (invalid; stores only)
+
+	add("b19", cid.NewCidV1(cid.Raw, idmh(huge)), huge, "xhuge") // identity, 200-byte digest: CID longer than 128 bytes
 
 	// digest identities
 	type dk struct{ s string }
